@@ -2,6 +2,8 @@ import DuneVerif.Proofs.C02Closed
 import DuneVerif.Proofs.C02Main
 import DuneVerif.Proofs.C02Minor
 import DuneVerif.Proofs.C02Top
+import DuneVerif.Proofs.C02FloatLU
+import DuneVerif.Proofs.C02FloatDet
 import Mathlib.LinearAlgebra.Matrix.NonsingularInverse
 import Mathlib.LinearAlgebra.Matrix.ToLinearEquiv
 import Mathlib.Algebra.Order.Field.Rat
@@ -530,4 +532,119 @@ example : ∀ i : Fin 3, (Vec.ofFn ![(2 : ℚ), 3, 5] : Vec 3 ℚ).f i ≠ 0 := 
   intro i; fin_cases i <;> simp
 
 end Diag
+
+/-! ## Part 4: floating point — the same models under the standard model of rounded arithmetic
+
+`Flt.Rounding` (Proofs/C02Float.lean) is an abstract floating-point format: `fl : ℝ → ℝ` with
+`fl x = x (1 + δ)`, `|δ| ≤ u` (no overflow / underflow); `Flt.FlR R` are the reals whose `+ - * /` round with `R.fl`.
+The executable models of Model/C02.lean are generic in the scalar type, so `solveLU`, `backSubst`, `solveDiag`, … below
+are literally the functions of Parts 2–3 instantiated at `FlR R`.  `Flt.gamma u k = k u / (1 - k u)` is Higham's `γ_k`;
+`Flt.Lr`, `Flt.Ur` are the computed factors `L̂` (unit lower triangular, the stored multipliers) and `Û`.
+
+Proved for every `n`, both pivoting modes, every pivot choice: the **backward-error bound of Gaussian elimination**
+for the LU path of `solve` (Higham, *Accuracy and Stability of Numerical Algorithms*, Thm 9.3 + 8.5 ⇒ 9.4, with the
+constant `3γ_{n+1} + γ_{n+1}²` instead of `γ_{3n}`): the computed `x̂` is the exact solution of a system whose
+(row-permuted) matrix differs from `A` entry-wise by at most `(3γ+γ²) (|L̂| |Û|)`; for the LU path of `determinant`:
+the computed value is `det(A + ΔA)(1 + θ)`, `|ΔA| ≤ γ_n |L̂||Û|`, `|θ| ≤ γ_{2n}`.  Also the triangular solve alone and
+the three DiagonalMatrix members.
+
+NOT proved (full statements kept here):
+* `invertLU_backward_error`: `|A·B̂ − I| ≤ c_n u |A| |Û⁻¹| |L̂⁻¹| …` (Higham §14.3, method B) — the sweeps of `invert`
+  are modelled and proved exact over fields (Part 2), their rounding analysis is missing;
+* the closed forms for `n ≤ 3` are Cramer's rule, which is forward but not backward stable (Higham §1.10.1): the
+  appropriate statement is a forward bound `‖x̂ − x‖ ≤ c u cond(A) ‖x‖`, not proved;
+* that IEEE binary64/80-bit/complex arithmetic of the C++ compiler satisfies `Flt.Rounding` with `u = 2⁻⁵³` etc.
+  (true for round-to-nearest in the absence of overflow/underflow; complex multiplication and division satisfy it
+  with a small multiple of `u`) is an assumption, not a theorem. -/
+section Float
+open Flt
+variable {R : Rounding} {n : Nat} {Q : Type} [LinearOrder Q] [Zero Q]
+
+/-- **backward error of `solve` on the LU path** (`solveLU_backward_error_partial` in the sense of the header: the
+statement is complete for `solve`, rows() ≥ 4; the analogous statements for `invert` and `determinant` are missing).
+`habs0`: the magnitude used in the pivot search vanishes on zero (true for `abs`). -/
+theorem solveLU_backward_error (hn : ((n + 1 : ℕ) : ℝ) * R.u < 1) (piv : Bool) (absval : FlR R → Q)
+    (habs0 : ∀ x : FlR R, x.val = 0 → absval x = 0) (A : Mat n (FlR R)) (b x : Vec n (FlR R))
+    (h : solveLU piv absval A b = .ok x) :
+    ∃ (σ : Equiv.Perm (Fin n)) (ΔA : Fin n → Fin n → ℝ),
+      (∀ r, ∑ c, ((A.f (σ r) c).val + ΔA r c) * (x.f c).val = (b.f (σ r)).val) ∧
+      ∀ r c, |ΔA r c| ≤ (3 * gamma R.u (n + 1) + gamma R.u (n + 1) ^ 2) *
+        ∑ k, |Lr (luDecomp piv absval elimFunc A b).A r k| * |Ur (luDecomp piv absval elimFunc A b).A k c| :=
+  solveLU_backward_error_rows hn piv absval habs0 A b x h
+
+/-- the same for the member function as a whole when `rows() ≥ 4` -/
+theorem solve_backward_error_ge4 (hn : ((n + 4 + 1 : ℕ) : ℝ) * R.u < 1) (piv : Bool) (absval : FlR R → Q)
+    (habs0 : ∀ x : FlR R, x.val = 0 → absval x = 0) (A : Mat (n + 4) (FlR R)) (b x : Vec (n + 4) (FlR R))
+    (h : solve piv absval A b = .ok x) :
+    ∃ (σ : Equiv.Perm (Fin (n + 4))) (ΔA : Fin (n + 4) → Fin (n + 4) → ℝ),
+      (∀ r, ∑ c, ((A.f (σ r) c).val + ΔA r c) * (x.f c).val = (b.f (σ r)).val) ∧
+      ∀ r c, |ΔA r c| ≤ (3 * gamma R.u (n + 4 + 1) + gamma R.u (n + 4 + 1) ^ 2) *
+        ∑ k, |Lr (luDecomp piv absval elimFunc A b).A r k| * |Ur (luDecomp piv absval elimFunc A b).A k c| :=
+  solveLU_backward_error_rows hn piv absval habs0 A b x h
+
+/-- the factorisation alone (Higham Thm 9.3): every entry of the row-permuted input is `Σ_k L̂_rk Û_kc (1+Θ_k)`
+with `|Θ_k| ≤ γ_n`, i.e. `L̂ Û = P A + ΔA`, `|ΔA| ≤ γ_n |L̂| |Û|` -/
+theorem lu_backward_error (hn : (n : ℝ) * R.u < 1) (piv : Bool) (absval : FlR R → Q)
+    (habs0 : ∀ x : FlR R, x.val = 0 → absval x = 0) (A : Mat n (FlR R)) (b : Vec n (FlR R))
+    (hok : (luDecomp piv absval elimFunc A b).ok = true) :
+    ∃ σ : Equiv.Perm (Fin n), ∀ r c, ∃ Θ : Fin n → ℝ, (∀ k, |Θ k| ≤ gamma R.u n) ∧
+      (A.f (σ r) c).val = ∑ k, Lr (luDecomp piv absval elimFunc A b).A r k *
+        Ur (luDecomp piv absval elimFunc A b).A k c * (1 + Θ k) := by
+  obtain ⟨σ, hM, _, _⟩ := lu_run_fl hn piv absval habs0 A b hok
+  exact ⟨σ, fun r c => MatInv_rows hM r c⟩
+
+/-- **backward error of `determinant` on the LU path**: when the decomposition runs through, the returned value is
+the exact determinant of `A + ΔA` times `1 + θ` (when it does not, `detLU` returns exactly `0`, Part 2) -/
+theorem detLU_backward_error (hn : ((2 * n : ℕ) : ℝ) * R.u < 1) (piv : Bool) (absval : FlR R → Q)
+    (habs0 : ∀ x : FlR R, x.val = 0 → absval x = 0) (A : Mat n (FlR R))
+    (hok : (luDecomp piv absval detFunc A (1 : FlR R)).ok = true) :
+    ∃ (σ : Equiv.Perm (Fin n)) (ΔA : Matrix (Fin n) (Fin n) ℝ) (θ : ℝ), |θ| ≤ gamma R.u (2 * n) ∧
+      (∀ r c, |ΔA (σ r) c| ≤ gamma R.u n *
+        ∑ k, |Lr (luDecomp piv absval detFunc A (1 : FlR R)).A r k| *
+          |Ur (luDecomp piv absval detFunc A (1 : FlR R)).A k c|) ∧
+      (detLU piv absval A).val = (realMat A + ΔA).det * (1 + θ) :=
+  detLU_backward_error_rows hn piv absval habs0 A hok
+
+/-- the triangular solve alone (Higham Thm 8.5 for the loop order of the code): `(U + ΔU) x̂ = y`,
+`|ΔU| ≤ γ_{n+1} |U|` -/
+theorem backSubst_backward_error (hn : ((n + 1 : ℕ) : ℝ) * R.u < 1) (U : Mat n (FlR R)) (y : Vec n (FlR R))
+    (hd : ∀ j, (U.f j j).val ≠ 0) (r : Fin n) :
+    ∃ θ : Fin n → ℝ, (∀ c, |θ c| ≤ gamma R.u (n + 1)) ∧
+      ∑ c, (if r ≤ c then (U.f r c).val * (1 + θ c) * ((backSubst U y).f c).val else 0) = (y.f r).val :=
+  backSubst_rows hn U y hd r
+
+/-- DiagonalMatrix::solve — backward error `γ_1` per diagonal entry -/
+theorem solveDiag_backward_error (hu1 : ((1 : ℕ) : ℝ) * R.u < 1) (d b : Vec n (FlR R)) (hd : ∀ i, (d.f i).val ≠ 0)
+    (i : Fin n) :
+    ∃ θ : ℝ, |θ| ≤ gamma R.u 1 ∧ (d.f i).val * (1 + θ) * ((solveDiag d b).f i).val = (b.f i).val :=
+  solveDiag_fl hu1 d b hd i
+
+/-- DiagonalMatrix::invert — relative error `u` per entry -/
+theorem invertDiag_error (d : Vec n (FlR R)) (i : Fin n) :
+    ∃ δ : ℝ, |δ| ≤ R.u ∧ ((invertDiag d).f i).val = 1 / (d.f i).val * (1 + δ) :=
+  invertDiag_fl d i
+
+/-- DiagonalMatrix::determinant — relative error `γ_{n+1}` -/
+theorem detDiag_error (hn : ((n + 1 : ℕ) : ℝ) * R.u < 1) (d : Vec (n + 1) (FlR R)) :
+    ∃ θ : ℝ, |θ| ≤ gamma R.u (n + 1) ∧ (detDiag d).val = (∏ i, (d.f i).val) * (1 + θ) :=
+  detDiag_fl hn d
+
+/-! non-vacuity: a rounding with `u = 2⁻⁵³ > 0` exists and meets the size condition for every `n ≤ 10⁶`;
+`|·|` on the values is an admissible magnitude.  (Whether a given hardware arithmetic *is* such a `Rounding` is the
+assumption named in the header.) -/
+example : ((1000000 + 1 : ℕ) : ℝ) * exRounding.u < 1 := by
+  simp only [exRounding]; norm_num
+example : ∀ x : FlR exRounding, x.val = 0 → (fun y : FlR exRounding => |y.val|) x = 0 := by
+  intro x hx; simp [hx]
+/-- the premise `solveLU … = .ok x` holds for a concrete 2×2 system that needs a row exchange -/
+noncomputable def exA2 : Mat 2 (FlR exRounding) :=
+  Mat.ofFn fun i j => ⟨if i.1 = 0 then (if j.1 = 0 then 0 else 2) else (if j.1 = 0 then 1 else 0)⟩
+noncomputable def exb2 : Vec 2 (FlR exRounding) := Vec.ofFn fun i => ⟨if i.1 = 0 then 2 else 3⟩
+example : ∃ x, solveLU true (fun y : FlR exRounding => |y.val|) exA2 exb2 = .ok x := by
+  have hok : (luDecomp true (fun y : FlR exRounding => |y.val|) elimFunc exA2 exb2).ok = true := by
+    simp [luDecomp, forUp, List.finRange, List.ofFn, luStep, pivotPhase, pivotSearch, swapRows, elimLoop, exA2, exb2,
+      Fin.foldr, Fin.foldr.loop, elimRow, factor, exRounding_sub, exRounding_mul, exRounding_div]
+  unfold solveLU; rw [if_pos hok]; exact ⟨_, rfl⟩
+
+end Float
 end DV.C02
